@@ -64,7 +64,15 @@ type EnvReader struct {
 	Hook   func() // scheduling point (C14)
 }
 
-func NewEnvReader(d []byte, cfg EnvCfg) *EnvReader { return &EnvReader{Cfg: cfg, D: d} }
+// envChooser, when set, is attached to every EnvReader created (per-Read deviations, E1).
+var (
+	envChooser *mc.Chooser
+	envDevMax  int
+)
+
+func NewEnvReader(d []byte, cfg EnvCfg) *EnvReader {
+	return &EnvReader{Cfg: cfg, D: d, Ch: envChooser, DevMax: envDevMax}
+}
 
 func (e *EnvReader) Pos() int { return e.pos }
 
